@@ -18,6 +18,9 @@ func (s *Server) lookup(db int, key string) *Value {
 	}
 	if v.ExpireAt != 0 && s.Now() >= v.ExpireAt {
 		delete(s.dbs[db], key)
+		if s.inCommand && s.PropagateExpire && s.repl != nil {
+			s.propExpire(db, key)
+		}
 		return nil
 	}
 	return v
